@@ -15,7 +15,8 @@ Three things live here:
                  have source text of its own?), ``span`` (inclusive character
                  offsets of that text) and ``noorder`` (``#^`` reverses order),
    * ``cuts``    one label per cut point ``0..len(text)`` (see ``CUT_*``),
-   * ``fparts``  spans of f-string literal parts, ``tags`` construct tags,
+   * ``fparts``  spans of f-string literal parts, ``fdebug`` offsets of debug
+                 ``=`` signs, ``tags`` construct tags,
    * ``lines``/``maxdepth``/``tail_comment`` layout facts.
 
    The same tree can be rendered with rich separators or the single-space
@@ -186,7 +187,8 @@ class Recorder:
         self.stack = ()
         self._ntok = 0
         self._pending = None
-        self.fparts = []       # [start, end_incl, index_in_parent] of f-string literal parts
+        self.fparts = []       # f-string literal parts: [start, end_incl, index, follows_a_field]
+        self.fdebug = []       # offsets of the '=' of f-string debug fields
         self.tags = set()
         self.maxdepth = 0
 
@@ -507,6 +509,7 @@ class FStr(Node):
         Adjacent strings are joined at FString level (join=True) only."""
         kids = []
         nlit = 0
+        after_field = 0
         for p in parts:
             if isinstance(p, Lit):
                 src = "".join(s for s, _ in p.pieces)
@@ -519,7 +522,7 @@ class FStr(Node):
                         R.token(ps)     # a doubled brace is one lexical unit
                     else:
                         R.raw(ps)
-                R.fparts.append([b, len(R.buf) - 1, nlit])
+                R.fparts.append([b, len(R.buf) - 1, nlit, after_field])
                 nlit += 1
                 if val:
                     kids.append(mk("String", val, own=False, brackets=None))
@@ -527,6 +530,7 @@ class FStr(Node):
                     R.tags.add("fstr:multi-literal")
             else:
                 kids.extend(self._field(R, p, tstr))
+                after_field = 1
         if join:
             out = []
             for k in kids:
@@ -564,6 +568,7 @@ class FStr(Node):
         R.raw(f.ws_between)
         out = []
         if f.debug:
+            R.fdebug.append(R.here("="))
             R.raw("=")
             R.raw(f.ws_eq)
             dbg = "".join(R.buf[b + 1:])
@@ -751,7 +756,7 @@ class Rendered:
     """Result of render(); see the module docstring.  as_case() gives a
     JSON-serialisable dict, from_case() restores it."""
 
-    FIELDS = ("text", "models", "cuts", "fparts", "tags", "lines", "maxdepth",
+    FIELDS = ("text", "models", "cuts", "fparts", "fdebug", "tags", "lines", "maxdepth",
               "tail_comment", "noise")
 
     def __init__(self, **kw):
@@ -783,7 +788,7 @@ def render(tree, seps="rich", sugar="chosen", cuts=True):
     if seps == "rich":
         noise = _count_noise(tree)
     return Rendered(text=text, models=models, cuts=R.cut_labels() if cuts else None,
-                    fparts=R.fparts, tags=sorted(R.tags), lines=text.count("\n") + 1,
+                    fparts=R.fparts, fdebug=R.fdebug, tags=sorted(R.tags), lines=text.count("\n") + 1,
                     maxdepth=R.maxdepth, tail_comment=tail_comment, noise=noise)
 
 
@@ -1275,11 +1280,11 @@ class ScanError(Exception):
 class Scan:
     """Result of scan(): text, cuts (as Rendered.cuts), forms = [[start,
     end_incl, produces_model]] for top-level forms, gaps = [[offset, depth,
-    infield]] positions between sibling forms, fparts (as Rendered.fparts)."""
+    infield]] positions between sibling forms, fparts / fdebug (as in Rendered)."""
 
-    def __init__(self, text, cuts, forms, gaps, fparts, maxdepth):
+    def __init__(self, text, cuts, forms, gaps, fparts, maxdepth, fdebug=()):
         self.text, self.cuts, self.forms, self.gaps = text, cuts, forms, gaps
-        self.fparts, self.maxdepth = fparts, maxdepth
+        self.fparts, self.maxdepth, self.fdebug = fparts, maxdepth, list(fdebug)
 
 
 class _Scanner:
@@ -1477,12 +1482,13 @@ class _Scanner:
         """Literal parts and fields up to and including closer."""
         R = self.R
         nlit = 0
+        after_field = 0
         start = None
 
         def endlit():
             nonlocal start, nlit
             if start is not None and self.i > start:
-                R.fparts.append([start, self.i - 1, nlit])
+                R.fparts.append([start, self.i - 1, nlit, after_field])
                 nlit += 1
             start = None
 
@@ -1514,6 +1520,7 @@ class _Scanner:
                 else:
                     endlit()
                     self.field(israw)
+                    after_field = 1
             elif c == "}":
                 if self.peek(1) == "}":
                     self.tok(2)
@@ -1530,6 +1537,7 @@ class _Scanner:
         R.retop(("H", "field", "}", "post"))
         self.ws()
         if self.peek() == "=":
+            R.fdebug.append(self.i)
             self.raw()
             self.ws()
         if self.peek() == "!":
@@ -1556,7 +1564,7 @@ def scan(text):
     if s.R.stack:
         raise ScanError("unbalanced")
     assert s.R.text() == text
-    return Scan(text, s.R.cut_labels(), s.forms, s.gaps, s.R.fparts, s.R.maxdepth)
+    return Scan(text, s.R.cut_labels(), s.forms, s.gaps, s.R.fparts, s.R.maxdepth, s.R.fdebug)
 
 
 # =============================================================================
